@@ -391,6 +391,9 @@ def random_disc(rng, small=True) -> Disc:
                     pair[0].loops = [Loop(at=max(2, n), fine=0, coarse=max(1, n // 2), duration=50)]
                 if rng.random() < 0.2:
                     pair[1].rate = 22050
+                if rng.random() < 0.4:
+                    # S175: the pair's rate is the left half's - and it is rarely 44100 on a real disc
+                    pair[0].rate = pair[1].rate = rng.choice([22050, 32000, 48000, 37123, 11025])
                 if rng.random() < 0.5:
                     pair.reverse()
                 files += pair
